@@ -32,7 +32,7 @@ def run(tier, seed):
             raise MachineryError("behaviour generation (B) failed: %s" % B["errors"][:3])
         wall += B["wall_s"]
         hs = B["tr"]
-        cap = 3000 if quick else 60000
+        cap = 12000 if quick else 100000
         if len(hs) > cap:
             hs = random.Random(seed).sample(hs, cap)
         behaviours += [(h, len(h)) for h in hs]
@@ -56,7 +56,7 @@ def run(tier, seed):
     ev = {"level": "model_checking",
           "coverage": {"states": stA, "transitions": stT, "traces_validated_against_impl": R["traces"],
                        "steps_validated": R["steps"], "exhaustive": False,
-                       "bounds": {"flag_sets": 22, "formats": ["json", "xml"],
+                       "bounds": {"flag_sets": 26, "formats": ["json", "xml"],
                                   "document_runs": [dict(mode=m, depth=d, extras=e, kinds=len(k)) for (m, d, e, k) in runs],
                                   "corpus_calls": len(ks), "corpus_files": {"json": 398, "xml": 45},
                                   "mutations": ["reorder", "wrap", "recarr", "rename", "tobundle"]},
